@@ -991,6 +991,15 @@ func concurrentFirstUse(rep *Report, cl *lean.Client, r *rng.R) int {
 		fl.N = r.Intn(1000) * 100
 		c := &l2Case{Q: "INSERT INTO t (*) VALUES ($" + e.Name + ".*)", Samples: []any{reflect.Zero(e.Type).Interface()},
 			Args: []any{fl.Fill(e.Type, 0).Interface()}}
+		outFlavour := n%2 == 1
+		if outFlavour {
+			// every other type: the type is already known to the process through a single
+			// member (prepared alone, beforehand); what the goroutines meet for the first time
+			// is its asterisk, here in an output expression
+			pre := &l2Case{Q: "SELECT &" + e.Name + "." + e.Tags[0] + " FROM t", Samples: c.Samples}
+			runL2Case(pre, pre.Samples, nil)
+			c = &l2Case{Q: "SELECT &" + e.Name + ".* FROM t", Samples: c.Samples}
+		}
 		const g = 16
 		res := make([]*l2Run, g)
 		start := make(chan struct{})
@@ -1022,6 +1031,10 @@ func concurrentFirstUse(rep *Report, cl *lean.Client, r *rng.R) int {
 		}
 		if bad != "" {
 			rep.addHolds("C16", Finding{Case: describeL2(c), Kind: "holds", Detail: bad, Holds: map[string]bool{"C16": false}, Impl: alone.obs()})
+			if outFlavour {
+				// the columns an output asterisk expands to are C05's
+				rep.addHolds("C05", Finding{Case: describeL2(c), Kind: "holds", Detail: bad, Holds: map[string]bool{"C05": false}, Impl: alone.obs()})
+			}
 		}
 	}
 	return n
